@@ -209,6 +209,27 @@ def ensure_built(need_bin=True, need_numlib=False, quiet=False):
                 src = os.path.join(REPO, 'Cargo.lock')
             data = open(src, 'rb').read()
             open(cl, 'wb').write(data)
+        # Two source trees at different paths share the names of their final artefacts (hyeong, libhyeong.rlib) inside one
+        # target directory, and cargo does not put the right one back when it finds a tree "fresh". When the tree
+        # changes (HYEONG_REPO: scratch copies, never in registered runs) the final artefacts are removed so that
+        # they are rebuilt from the tree that is being checked.
+        stamp = os.path.join(BUILD, 'last_repo')
+        last = open(stamp).read() if os.path.exists(stamp) else REPO
+        if last != REPO:
+            import glob
+            import shutil
+            for tdir in (TARGET, TARGET_BIN, TARGET_NUM):
+                for pat in ('release/hyeong', 'release/hvshim', 'release/libhyeong*', 'release/deps/hyeong-*', 'release/deps/hvshim-*',
+                            'release/deps/libhyeong-*', 'release/.fingerprint/hyeong-*', 'release/.fingerprint/hvshim-*'):
+                    for f in glob.glob(os.path.join(tdir, pat)):
+                        if os.path.isdir(f):
+                            shutil.rmtree(f, ignore_errors=True)
+                        else:
+                            try:
+                                os.unlink(f)
+                            except OSError:
+                                pass
+        open(stamp, 'w').write(REPO)
         times = {}
         times['shim'] = _run_build(['cargo', 'build', '--release', '--offline', '-q'], shimdir, TARGET, 'shim')
         if need_bin:
